@@ -156,7 +156,7 @@ fn check_history_on(ctx: &mut Ctx, terms: &[(u32, &str)], p2: &[(u32, u32)], p3:
             // a call naming an id beyond the id space that panics (as new_term does for such ids) has refused the
             // call; nothing was built, so there is nothing to judge
             if IN_FLIGHT.with(|f| f.get()) >= BEYOND_ID_SPACE {
-                ctx.bump("call_naming_an_id_beyond_the_id_space_panicked", 1);
+                ctx.bump("no verdict: history ended by a panicking call that names an id beyond the id space", 1);
                 return;
             }
             ctx.violation("Builder", "a builder call panics", json!({"case": case(), "observed": p}));
@@ -177,7 +177,7 @@ fn check_history_on(ctx: &mut Ctx, terms: &[(u32, &str)], p2: &[(u32, u32)], p3:
             return;
         }
         if r2[i] && !want_ok {
-            ctx.bump("call_naming_an_absent_term_returned_ok", 1);
+            ctx.bump("no verdict: return value of an add_parent call naming an absent term that returned Ok", 1);
         }
     }
     for (i, op) in p3.iter().enumerate() {
@@ -188,7 +188,7 @@ fn check_history_on(ctx: &mut Ctx, terms: &[(u32, &str)], p2: &[(u32, u32)], p3:
             return;
         }
         if r3[i] && !want_ok {
-            ctx.bump("call_naming_an_absent_term_returned_ok", 1);
+            ctx.bump("no verdict: return value of an annotate call naming an absent term that returned Ok", 1);
         }
     }
     // (b) referentially closed: the whole read API can be walked
@@ -207,16 +207,34 @@ fn check_history_on(ctx: &mut Ctx, terms: &[(u32, &str)], p2: &[(u32, u32)], p3:
             f.edges.push((c, p));
         }
     }
+    // which accepted calls naming an absent term left a trace that is tolerated (they stay in the differential run
+    // below; every other accepted call of that kind is removed from it like a failing one)
+    let mut traced = vec![false; p3.len()];
+    // the record is stated by a call whose term exists (or by add_*) that succeeded - then its presence is no trace
+    let stated = |k: Kind, r: u32| {
+        p3.iter().enumerate().any(|(j, q)| {
+            r3[j]
+                && match *q {
+                    Op3::Annotate(k2, r2_, t) => k2 == k && r2_ == r && present.contains(&t),
+                    Op3::Add(k2, r2_) => k2 == k && r2_ == r,
+                    Op3::AnnotateOtherName(..) => false,
+                }
+        })
+    };
     for (i, op) in p3.iter().enumerate() {
         if r3[i] {
             match *op {
                 Op3::Annotate(k, r, t) if present.contains(&t) => f.anns.push(Facts::ann(k, r, &rec_name(k, r), Some(t))),
                 Op3::Add(k, r) => f.anns.push(Facts::ann(k, r, &rec_name(k, r), None)),
                 // an annotate call naming an absent term that returned Ok: no link; whether such a call registers
-                // the (bare) record is left to the builder - the model follows what the ontology shows
+                // the (bare) record is left to the builder - the model follows what the ontology shows (counted)
                 Op3::Annotate(k, r, _) | Op3::AnnotateOtherName(k, r, _) => {
                     if obs.recs[k.idx()].iter().any(|x| x.id == r) {
                         f.anns.push(Facts::ann(k, r, &rec_name(k, r), None));
+                        if !stated(k, r) {
+                            traced[i] = true;
+                            ctx.bump("no verdict: bare record left by an accepted annotate call naming an absent term", 1);
+                        }
                     }
                 }
             }
@@ -226,6 +244,8 @@ fn check_history_on(ctx: &mut Ctx, terms: &[(u32, &str)], p2: &[(u32, u32)], p3:
     for (i, op) in p3.iter().enumerate() {
         if let (true, Op3::AnnotateOtherName(k, r, _)) = (r3[i], *op) {
             if obs.recs[k.idx()].iter().any(|x| x.id == r && x.name == "other") {
+                traced[i] = true;
+                ctx.bump("no verdict: record renamed by an accepted annotate call naming an absent term", 1);
                 for a in f.anns.iter_mut().filter(|a| a.kind == k && a.id == r) {
                     a.name = "other".into();
                 }
@@ -239,8 +259,11 @@ fn check_history_on(ctx: &mut Ctx, terms: &[(u32, &str)], p2: &[(u32, u32)], p3:
         return;
     }
     // ... and the real Builder fed with the successful calls only (differential, exact)
-    let ok2: Vec<(u32, u32)> = p2.iter().enumerate().filter(|(i, _)| r2[*i]).map(|(_, x)| *x).collect();
-    let ok3: Vec<Op3> = p3.iter().enumerate().filter(|(i, _)| r3[*i]).map(|(_, x)| *x).collect();
+    // (a call naming an absent term that returned Ok is removed as well, unless it left one of the two tolerated
+    // traces above: it stated no fact, so the history without it must give the same ontology - keeping it would
+    // compare the history with itself)
+    let ok2: Vec<(u32, u32)> = p2.iter().enumerate().filter(|(i, x)| r2[*i] && present.contains(&x.0) && present.contains(&x.1)).map(|(_, x)| *x).collect();
+    let ok3: Vec<Op3> = p3.iter().enumerate().filter(|(i, x)| r3[*i] && (!x.names_absent(&present) || traced[*i])).map(|(_, x)| *x).collect();
     if ok2.len() != p2.len() || ok3.len() != p3.len() {
         ctx.nontrivial();
         match guard(|| execute(terms, &ok2, &ok3)) {
@@ -252,11 +275,42 @@ fn check_history_on(ctx: &mut Ctx, terms: &[(u32, &str)], p2: &[(u32, u32)], p3:
                 }
                 Err(i) => ctx.violation(&i.site, "read API inconsistent on the ontology built from the successful calls", json!({"case": case(), "observed": i.what})),
             },
-            Err(_) if IN_FLIGHT.with(|f| f.get()) >= BEYOND_ID_SPACE => ctx.bump("call_naming_an_id_beyond_the_id_space_panicked", 1),
+            Err(_) if IN_FLIGHT.with(|f| f.get()) >= BEYOND_ID_SPACE => ctx.bump("no verdict: history ended by a panicking call that names an id beyond the id space", 1),
             Err(p) => ctx.violation("Builder", "a builder call panics", json!({"case": case(), "observed": p})),
         }
     }
     ctx.outcome(obs.fingerprint());
+}
+
+/// An ontology that a loader RETURNED for an input naming an absent term: it must be walkable, must not hand the
+/// absent id out, and must be consistent with the direct facts it reports itself (a half-applied failing call -
+/// the record lists a term that does not list the record, an inherited link that stops half-way - is an effect of
+/// the failing call). `valid_parts` are the observations the valid facts describe without the offending pair /
+/// without the offending record; anything else that comes back is counted, not judged (the statement demands
+/// closure only).
+fn judge_returned(ctx: &mut Ctx, ont: &Ontology, site: &str, what: &str, absent: u32, valid_parts: &[Facts], case: &dyn Fn() -> Value) {
+    ctx.bump(&format!("no verdict on the return value: {site} returned an ontology for {what}"), 1);
+    let o = match Obs::of(ont) {
+        Err(i) => {
+            ctx.violation(site, &format!("returns an ontology with a dangling term id (read API panics) for {what}"), json!({"case": case(), "observed": i.what}));
+            return;
+        }
+        Ok(o) => o,
+    };
+    if o.recs.iter().any(|rs| rs.iter().any(|r| r.terms.contains(&absent))) {
+        ctx.violation(site, &format!("returns an ontology whose record lists a term that does not exist ({what})"), json!({"case": case()}));
+        return;
+    }
+    let n_violations = |c: &Ctx| c.violations.values().map(|v| v.count).sum::<u64>();
+    let before = n_violations(ctx);
+    super::c01::self_consistent(ctx, ont, &format!("{site} given {what}"), Mode::Defaults, case);
+    if n_violations(ctx) != before || valid_parts.is_empty() {
+        return;
+    }
+    let matches = valid_parts.iter().any(|f| o.diff(&Obs::expected(&RefOnt::derive(f), Mode::Defaults), false).is_none());
+    if !matches {
+        ctx.bump(&format!("no verdict: {site} returned an ontology that is neither the valid facts without the offending link nor those without the offending record"), 1);
+    }
 }
 
 fn binom(n: u64, k: u64) -> u64 {
@@ -286,12 +340,22 @@ fn sequences<T: Copy>(alphabet: &[T], max_len: usize) -> Vec<Vec<T>> {
 }
 
 pub fn run(ctx: &mut Ctx) {
+    run_spaces(ctx);
+    // refusals forgiven by c10::decode_tolerant (a file with non-ascending ids inside a record refused, the same facts
+    // with ascending lists accepted)
+    let n = super::c10::take_ascending_retries();
+    if n > 0 {
+        ctx.bump("refused: ids inside a record not ascending, the same facts with ascending lists accepted", n);
+    }
+}
+
+fn run_spaces(ctx: &mut Ctx) {
     let thorough = ctx.tier.thorough();
     ctx.rule = "case = one AllTerms-phase call sequence combined with every ConnectedTerms-phase call sequence up to the depth bound (terms 1,2 present, 3 absent); every history is executed on the real Builder and compared with the model of its successful calls and with the Builder fed the successful calls only; distinct by construction; non-trivial = history containing at least one failing call".into();
     ctx.assumptions = vec![
         "add_parent(2,1) together with add_parent(1,2) would form a cycle and is outside the quantifier (acyclic graphs)".into(),
         "one name per record id".into(),
-        "a call whose terms all exist must succeed (a repeat of an earlier call may be refused); a call naming an absent term that returns Ok instead of an error states no fact: no link may result from it (whether an annotate call of that kind registers the bare record is left open)".into(),
+        "a call whose terms all exist must succeed (a repeat of an earlier call may be refused); a call naming an absent term that returns Ok instead of an error states no fact: no link may result from it, and the history without it must build the same ontology (whether an annotate call of that kind registers the bare record, or renames it, is left open and counted; only then the call stays in the differential run)".into(),
         "a call naming a term id >= 10^7 that panics (as new_term does for such ids) counts as refused; the history ends there without a verdict".into(),
         "new_term called twice for one id: which call counts is left open (stored once, under one of the names)".into(),
         "decoder space: Ontology::from_bytes documents HpoError::DoesNotExist for invalid references to terms; parent records naming absent terms are not included (the documentation only promises a possible panic there)".into(),
@@ -547,19 +611,43 @@ pub fn run(ctx: &mut Ctx) {
                             ctx.transitions(f.n_steps());
                             let bytes = encode(&f, &EncOpts::list_order(version));
                             let case = || json!({"facts": f.to_json(), "absent_term": absent, "format_version": version});
+                            // the valid twin of this shape (record 7 on the valid terms only, record 8 on 118; the
+                            // same layout and version): it must decode to the ontology it describes - otherwise
+                            // "an error is fine" below would also excuse a decoder that refuses this shape as such
+                            if pos == 0 && absent == 300 {
+                                let mut g = base.clone();
+                                for t in &valid {
+                                    g.anns.push(Facts::ann(kind, 7, "Seven", Some(*t)));
+                                }
+                                g.anns.push(Facts::ann(kind, 8, "Eight", Some(118)));
+                                let twin_case = || json!({"facts": g.to_json(), "format_version": version});
+                                match crate::drive::from_bytes(&encode(&g, &EncOpts::list_order(version))) {
+                                    Ok(Ok(ont)) => {
+                                        crate::drive::check_against_model(ctx, &ont, &RefOnt::derive(&crate::encode::project(&g, version)), Mode::Defaults, &format!("binary v{version}, the valid file the absent id is added to"), &twin_case);
+                                    }
+                                    Ok(Err(e)) | Err(e) => {
+                                        ctx.exec();
+                                        ctx.violation("Ontology::from_bytes", "rejects (or panics on) a file laid out as documented", json!({"case": twin_case(), "observed": e}));
+                                    }
+                                }
+                            }
                             match crate::drive::from_bytes(&bytes) {
                                 Ok(Err(_)) | Err(_) => {}
                                 // an ontology may only come back if it is referentially closed (a decoder that drops
                                 // the unknown term instead of failing would still satisfy the property)
-                                Ok(Ok(ont)) => match Obs::of(&ont) {
-                                    Err(i) => ctx.violation("Ontology::from_bytes", "returns an ontology with a dangling term id (read API panics) for a record naming an absent term", json!({"case": case(), "observed": i.what})),
-                                    Ok(o) => {
-                                        let hands_out = o.recs.iter().any(|rs| rs.iter().any(|r| r.terms.contains(&absent)));
-                                        if hands_out {
-                                            ctx.violation("Ontology::from_bytes", "returns an ontology whose record lists a term that does not exist", json!({"case": case()}));
-                                        }
+                                Ok(Ok(ont)) => {
+                                    // the valid facts without the offending link (record 7 bare or gone when no
+                                    // other link is left) / without record 7
+                                    let mut a = f.clone();
+                                    a.anns.retain(|x| x.term != Some(absent));
+                                    let mut b = a.clone();
+                                    b.anns.retain(|x| x.id != 7);
+                                    let mut c = a.clone();
+                                    if valid.is_empty() {
+                                        c.anns.push(Facts::ann(kind, 7, "Seven", None));
                                     }
-                                },
+                                    judge_returned(ctx, &ont, "Ontology::from_bytes", "a record naming an absent term", absent, &[a, b, c], &case);
+                                }
                             }
                             ctx.sample(|| json!({"kind": kind.name(), "record_terms": terms, "absent": absent, "format_version": version}));
                         }
@@ -614,14 +702,8 @@ pub fn run(ctx: &mut Ctx) {
                                     let case = || json!({"terms": [1, 118, 200], "kind": kind.name(), "record 7, valid occurrence": first_valid, "record 7, other occurrence": bad_terms, "offending occurrence first": bad_first, "absent_term": absent, "format_version": version});
                                     match crate::drive::from_bytes(&bytes) {
                                         Ok(Err(_)) | Err(_) => {}
-                                        Ok(Ok(ont)) => match Obs::of(&ont) {
-                                            Err(i) => ctx.violation("Ontology::from_bytes", "returns an ontology with a dangling term id (read API panics) for a repeated record naming an absent term", json!({"case": case(), "observed": i.what})),
-                                            Ok(o) => {
-                                                if o.recs.iter().any(|rs| rs.iter().any(|r| r.terms.contains(&absent))) {
-                                                    ctx.violation("Ontology::from_bytes", "returns an ontology whose record lists a term that does not exist (repeated record)", json!({"case": case()}));
-                                                }
-                                            }
-                                        },
+                                        // (how a repeated record is resolved is open: closure and self-consistency only)
+                                        Ok(Ok(ont)) => judge_returned(ctx, &ont, "Ontology::from_bytes", "a repeated record naming an absent term", absent, &[], &case),
                                     }
                                     ctx.sample(|| case());
                                 }
@@ -752,14 +834,17 @@ pub fn run(ctx: &mut Ctx) {
                             let case = || json!({"kind": kind.name(), "record": rec, "absent_term": absent, "row_position": (["first", "middle", "last"][pos]), "transitive_loader": transitive, "phenotype.hpoa": files.hpoa, "genes": if transitive { &files.phenotype_to_genes } else { &files.genes_to_phenotype }});
                             match crate::jax::load_with(&files, transitive, crate::jax::OtherGeneFile::Absent) {
                                 Ok(Err(_)) | Err(_) => {}
-                                Ok(Ok(ont)) => match Obs::of(&ont) {
-                                    Err(i) => ctx.violation("Ontology::from_standard", "returns an ontology with a dangling term id (read API panics) for a row naming an absent term", json!({"case": case(), "observed": i.what})),
-                                    Ok(o) => {
-                                        if o.recs.iter().any(|rs| rs.iter().any(|r| r.terms.contains(&absent))) {
-                                            ctx.violation("Ontology::from_standard", "returns an ontology whose record lists a term that does not exist", json!({"case": case()}));
-                                        }
+                                Ok(Ok(ont)) => {
+                                    // the valid rows alone / without the record of the offending row
+                                    let mut b = base.clone();
+                                    b.anns.retain(|x| !(x.kind == kind && x.id == rec));
+                                    // (... or with that record registered without the offending link)
+                                    let mut c = base.clone();
+                                    if rec != 7 {
+                                        c.anns.push(Facts::ann(kind, rec, name, None));
                                     }
-                                },
+                                    judge_returned(ctx, &ont, "Ontology::from_standard", "a row naming an absent term", absent, &[base.clone(), b, c], &case)
+                                }
                             }
                             ctx.sample(|| json!({"kind": kind.name(), "record": rec, "absent": absent, "position": pos, "transitive": transitive}));
                         }
@@ -799,8 +884,9 @@ pub fn run(ctx: &mut Ctx) {
             // Builder-built source, and the same graph decoded from a v3 file with each term in turn flagged
             // obsolete and replaced (a flagged term keeps its links; the copy loop must not skip it)
             let mut sources: Vec<Ontology> = vec![];
-            if let Ok(src) = crate::drive::build(&f, Mode::Minimal) {
-                sources.push(src);
+            match crate::drive::build(&f, Mode::Minimal) {
+                Ok(src) => sources.push(src),
+                Err(e) => ctx.violation("Builder", "construction fails on valid facts", json!({"facts": f.to_json(), "observed": e})),
             }
             for k in 0..n {
                 let mut g = f.clone();
@@ -811,8 +897,16 @@ pub fn run(ctx: &mut Ctx) {
                 g.terms.push(Facts::term(1, "All"));
                 g.terms.push(Facts::term(118, "Phenotypic abnormality"));
                 g.edges.push((118, 1));
-                if let Ok(Ok(src)) = crate::drive::from_bytes(&crate::encode::encode(&g, &crate::encode::EncOpts::list_order(3))) {
-                    sources.push(src);
+                // (lists in fact order; a decoder may insist on ascending ids inside a record: then the canonical file)
+                match crate::drive::from_bytes(&crate::encode::encode(&g, &crate::encode::EncOpts::list_order(3))) {
+                    Ok(Ok(src)) => sources.push(src),
+                    Ok(Err(_)) | Err(_) => match crate::drive::from_bytes(&crate::encode::encode(&g, &crate::encode::EncOpts::v(3))) {
+                        Ok(Ok(src)) => {
+                            ctx.bump("refused: file with in-record lists in fact order (canonical file used as sub_ontology source)", 1);
+                            sources.push(src);
+                        }
+                        Ok(Err(e)) | Err(e) => ctx.violation("Ontology::from_bytes", "rejects (or panics on) a file laid out as documented", json!({"facts": g.to_json(), "flagged_term": ids[k], "observed": e})),
+                    },
                 }
             }
             for src in &sources {
@@ -920,7 +1014,7 @@ pub fn run(ctx: &mut Ctx) {
         if matches!(&res, Err(e) if e.starts_with("panic")) {
             // a call that panics for an id beyond the id space has refused it (as new_term does): once more with
             // absent ids inside the id space only
-            ctx.bump("call_naming_an_id_beyond_the_id_space_panicked", 1);
+            ctx.bump("no verdict: first 66 000-term run panicked (taken for a call naming an id beyond the id space) and was repeated without such ids", 1);
             res = crate::drive::build_with_rejected(&f, Mode::Minimal, &absent[..3]);
         }
         match res {
@@ -929,7 +1023,7 @@ pub fn run(ctx: &mut Ctx) {
             }
             // (the driver stops at a call naming an absent term that returns Ok: such a builder is judged by the
             // small histories, where an accepted call is followed to the end)
-            Err(e) if e.starts_with("accepted:") => ctx.bump("call_naming_an_absent_term_returned_ok", 1),
+            Err(e) if e.starts_with("accepted:") => ctx.bump("no verdict: return value of a call naming an absent term that returned Ok (66 000 terms)", 1),
             Err(e) => ctx.violation("Builder", "a valid call fails (66 000 terms)", json!({"terms": n, "observed": e})),
         }
         ctx.sample(|| json!({"terms": n}));
